@@ -420,8 +420,8 @@ class Translator:
     def coq(self, repo):
         o = []
         w = o.append
-        w("(** GENERATED by tools/gen_wire.py from %s/vls-protocol/src/{model,msgs}.rs — do not edit.\n"
-          "    Regenerated and re-proved on every run of `verif.py check C19`. *)" % repo)
+        w("(** GENERATED by tools/gen_wire.py from <repo>/vls-protocol/src/{model,msgs}.rs — do not edit.\n"
+          "    Regenerated and re-proved on every run of `verif.py check C19` (<repo> = $VERIF_REPO or /repo). *)")
         w("From Coq Require Import List NArith Bool Lia.")
         w("From VLS Require Import Base.Codec Model.Wire Proofs.WireProofs.")
         w("Import ListNotations.\nOpen Scope N_scope.\n")
@@ -537,8 +537,8 @@ class Translator:
     def rust(self, repo):
         o = []
         w = o.append
-        w("// GENERATED by tools/gen_wire.py from %s/vls-protocol/src/{model,msgs}.rs - do not edit.\n"
-          "// Included by harness/src/bin/wire.rs; regenerated before every build of the `wire` domain." % repo)
+        w("// GENERATED by tools/gen_wire.py from <repo>/vls-protocol/src/{model,msgs}.rs - do not edit.\n"
+          "// Included by harness/src/bin/wire.rs; regenerated before every build of the `wire` domain.")
         for n in self.order:
             it = self.structs[n]
             fs = [f for f, _ in it["fields"]]
@@ -562,7 +562,9 @@ class Translator:
               "    fn bytes(&self) -> Vec<u8> { SerBolt::as_vec(self) }\n"
               "    fn coq_msg(&self) -> String { format!(\"(M_%s B0 {})\", self.coq()) }\n"
               "    fn canon_msg(&self, r: bool) -> String { self.canon(r) }\n"
-              "}" % (n, n, n))
+              "    fn write_framed(self: Box<Self>) -> Result<Vec<u8>, String> { write_framed_as(*self) }\n"
+              "    fn read_typed(&self, stream: &[u8]) -> Result<(String, usize), String> { read_typed_as::<%s>(stream) }\n"
+              "}" % (n, n, n, n))
         w("pub const TYPES: &[TypeInfo] = &[")
         for n in self.msgs:
             w('    TypeInfo { name: "%s", id: %d, has_blob: %s, has_streamed: %s, dispatched: %s, gen: |g| Box::new(<%s as Arb>::arb(g)) },' % (
